@@ -80,7 +80,7 @@ Example sl_example :
   sl_stmt_ok s /\ sl_layout_ok y /\ parse_pil (sl_render s y ++ [NL]) = vals [sl_tree s].
 Proof.
   cbn zeta. split; [|split].
-  - cbn. repeat split; try reflexivity. left. reflexivity.
+  - cbn. repeat split; try reflexivity. right. reflexivity.
   - cbn. repeat split; try reflexivity. left. reflexivity.
   - vm_compute. reflexivity.
 Qed.
